@@ -382,6 +382,8 @@ pub fn doc_uris() -> Vec<String> {
         format!("file://{SCRATCH}/does/not/exist/c.llw"),
         // a document that was never saved (VS Code's scheme for it); swarm option, see `generate`
         "untitled:Untitled-1".to_string(),
+        // the same path as the first document under another scheme (an editor's diff view)
+        format!("git:{SCRATCH}/withparser/a.llw?ref=HEAD"),
     ]
 }
 
@@ -473,9 +475,10 @@ pub fn pick_position(rng: &mut Rng, text: &str) -> (u32, u32, PosClass) {
 pub fn generate(rng: &mut Rng, pool: &TextPool, max_steps: usize) -> History {
     let uris = doc_uris();
     // swarm: one history in six also uses the non-file document
-    let ndocs = if rng.chance(1, 6) { uris.len() } else { rng.range(1, uris.len() - 1) };
+    let ndocs = if rng.chance(1, 6) { uris.len() } else { rng.range(1, uris.len() - 2) };
     let nsteps = rng.range(3, max_steps);
     let mut cur: Vec<Option<String>> = vec![None; uris.len()];
+    let mut last_text: Vec<Option<String>> = vec![None; uris.len()];
     let mut steps = vec![];
     // swarm: per-history weights
     let w_change = rng.range(1, 4);
@@ -494,17 +497,23 @@ pub fn generate(rng: &mut Rng, pool: &TextPool, max_steps: usize) -> History {
         let d = rng.below(ndocs);
         match &cur[d] {
             None => {
-                let t = pick_text(rng, None);
+                // re-opening a document often brings back exactly the text it had when it was closed
+                let t = match &last_text[d] {
+                    Some(t) if rng.chance(1, 3) => t.clone(),
+                    _ => pick_text(rng, None),
+                };
                 cur[d] = Some(t.clone());
                 steps.push(Step::Open { doc: d, text: t });
             }
             Some(text) => {
                 let roll = rng.below(w_change + w_close + w_req);
                 if roll < w_change {
-                    let t = pick_text(rng, Some(text));
+                    // (one change in ten re-sends the unchanged text)
+                    let t = if rng.chance(1, 10) { text.clone() } else { pick_text(rng, Some(text)) };
                     cur[d] = Some(t.clone());
                     steps.push(Step::Change { doc: d, text: t });
                 } else if roll < w_change + w_close {
+                    last_text[d] = cur[d].clone();
                     cur[d] = None;
                     steps.push(Step::Close { doc: d });
                 } else {
